@@ -74,8 +74,9 @@ pub fn run_pat_px(l: &[i128]) -> Vec<i128> {
     // total transform from source space to device space
     if kind == 2 {
         // C11: a Pattern's opacity scales edge pixels like interior pixels: anti-aliased fill of the pixmap inset by half a
-        // pixel with a constant-colour pattern over a transparent pixmap; edge = interior / 2, corner = interior / 4
-        let mut pm = Pixmap::new(w, h).unwrap();
+        // pixel with a constant-colour pattern over a uniform destination; the interior is the source scaled by the opacity and
+        // blended, an edge pixel lies half way (a corner pixel a quarter of the way) from the destination to the interior
+        let bg4 = [bgc[0] as f64, bgc[1] as f64, bgc[2] as f64, bgc[3] as f64];
         let mut paint = Paint::default();
         paint.shader = Pattern::new(src.as_ref(), spread, filter, opacity, Transform::identity());
         paint.blend_mode = bm;
@@ -89,6 +90,19 @@ pub fn run_pat_px(l: &[i128]) -> Vec<i128> {
         if w >= 4 && h >= 4 && constant {
             let inner = pm.pixel(w / 2, h / 2).unwrap();
             let i4 = [inner.red() as f64, inner.green() as f64, inner.blue() as f64, inner.alpha() as f64];
+            let op = (opacity as f64).max(0.0).min(1.0);
+            let sa = cc[3] as f64 * op / 255.0;
+            checked += 1;
+            for j in 0..4 {
+                let want = if blend == 0 { cc[j] as f64 * op } else { cc[j] as f64 * op + bg4[j] * (1.0 - sa) };
+                if (i4[j] - want).abs() > 2.5 {
+                    bad += 1;
+                    if first[2] == 0 {
+                        first = [(w / 2) as i128, (h / 2) as i128, 8, i4[j] as i128, want as i128];
+                    }
+                    break;
+                }
+            }
             for y in 0..h {
                 for x in 0..w {
                     let ex = x == 0 || x == w - 1;
@@ -98,10 +112,11 @@ pub fn run_pat_px(l: &[i128]) -> Vec<i128> {
                     let g4 = [g.red() as f64, g.green() as f64, g.blue() as f64, g.alpha() as f64];
                     checked += 1;
                     for j in 0..4 {
-                        if (g4[j] - i4[j] * k).abs() > 2.5 {
+                        let want = bg4[j] + (i4[j] - bg4[j]) * k;
+                        if (g4[j] - want).abs() > 2.5 {
                             bad += 1;
                             if first[2] == 0 {
-                                first = [x as i128, y as i128, 7, g4[j] as i128, (i4[j] * k) as i128];
+                                first = [x as i128, y as i128, 7, g4[j] as i128, want as i128];
                             }
                             break;
                         }
